@@ -343,7 +343,9 @@ class _GlobSplit(Generic[AnyStr]):
                     if (self.bslash_abort and value == '\\') or value == '/':
                         split_index.append((i.index - 2, 1))
                 except StopIteration:
+                    # Escapes nothing, ignore it as the pattern parser does
                     i.rewind(i.index - index)
+                    pattern = pattern[:-1]
             elif c == '/':
                 split_index.append((i.index - 1, 0))
             elif c == '[':
